@@ -34,8 +34,29 @@ NUM_POOL = ["u0", "u1", "u2", "u3", "u10", "i-1", "i-2", "u42", "u90071992547409
 STR_POOL = ["", "a", "b", "foo", "bar", "é", "😀x", "a b", "10", "1.5", "true", "[1]", "abc", "ab", "zzz", "A", " ", "\t\n", "\u00a0", "a\"b\\c", "{}", "null", "0", "false"]
 
 
+# numbers in narrow bands around powers of two / round decimal values, long and normalisation-sensitive strings: content a fast path,
+# a size threshold or a narrowing conversion could be keyed on
+BAND_NUMS = [2 ** 31 - 1, 2 ** 31, 2 ** 31 + 1, 2 ** 32 - 1, 2 ** 32, 2 ** 32 + 5, 3000000000, 1000, 10000, 1000000, 255, 256, 257, 65535, 65536, 127, 128,
+             2 ** 53 - 1, 2 ** 53, 2 ** 63 - 1, 2 ** 63, 2 ** 64 - 1, 16777216, 16777217, 99, 100, 101, -128, -129, -32768, -32769, -2 ** 31, -2 ** 31 - 1,
+             -2 ** 53, -2 ** 63, -1000, -255, -256, 12, 20, 21, 32, 33, 64, 65]
+LONG_STRS = ["x" * 64, "x" * 65, "ab" * 64, "é" * 40, "😀" * 20, "a" * 255, "a" * 256, "b" * 300, "http://example.com/a/b?c=d&e=f#" + "z" * 40,
+             "e\u0301", "\u00e9", "\u212b", "\u00c5", "ﬁ", "ǆ", "ß", "İ", "\u1e9e", "A" * 33, " " * 70, "0" * 40, "9" * 20, "-" + "1" * 19,
+             "line1\nline2\n" * 8, "\ud7ff\ue000", "\U00010000\U0001f600\U0010ffff", "a\u0300\u0301\u0302", "\ufeffbom", "tab\there"]
+
+
 def rand_scalar(rng):
     r = rng.random()
+    if r < 0.04:
+        v = rng.choice(BAND_NUMS) + rng.choice([0, 0, 0, 1, -1])
+        if -2 ** 63 <= v < 0:
+            return "i%d" % v
+        if 0 <= v < 2 ** 64:
+            return "u%d" % v
+        return f64_bits(float(v))
+    if r < 0.06:
+        return enc_str(rng.choice(LONG_STRS))
+    if r < 0.065:
+        return f64_bits(float(rng.choice(BAND_NUMS)) + rng.choice([0.0, 0.5, -0.5]))
     if r < 0.12:
         return "n"
     if r < 0.22:
@@ -52,6 +73,16 @@ def rand_doc(rng, depth=3):
         return rand_scalar(rng)
     if r < 0.6:
         n = rng.choice([0, 1, 2, 2, 3, 3, 4, 6])
+        if rng.random() < 0.02:
+            # long arrays of scalars (sorting / searching / hashing thresholds: 20, 32, 64, 128, 256 …)
+            n = rng.choice([21, 33, 65, 129, 257, 300])
+            kind = rng.random()
+            if kind < 0.4:
+                return "[ " + " ".join("u%d" % rng.randrange(0, 50) for _ in range(n)) + " ]"
+            if kind < 0.7:
+                return "[ " + " ".join(enc_str(rng.choice(STR_POOL[:8]) + str(rng.randrange(0, 9))) for _ in range(n)) + " ]"
+            keys = rng.sample(IDENTS[:8], 2)
+            return "[ " + " ".join("{ " + " ".join(enc_str(k) + " " + ("u%d" % rng.randrange(0, 9)) for k in sorted(keys)) + " }" for _ in range(n)) + " ]"
         kind = rng.random()
         if kind < 0.3:     # homogeneous objects (projection / filter targets)
             keys = rng.sample(IDENTS[:8], rng.randrange(1, 4))
@@ -66,6 +97,10 @@ def rand_doc(rng, depth=3):
             return "[ " + " ".join(enc_str(rng.choice(STR_POOL)) for _ in range(n)) + " ]" if n else "[ ]"
         return "[ " + " ".join(rand_doc(rng, depth - 1) for _ in range(n)) + " ]" if n else "[ ]"
     n = rng.choice([0, 1, 2, 3, 4])
+    if rng.random() < 0.01:
+        # objects with many members
+        ks = sorted(set(IDENTS + KEYS + ["m%d" % i for i in range(rng.choice([12, 20, 40]))]), key=lambda s: s.encode("utf-8"))
+        return "{ " + " ".join(enc_str(k) + " " + rand_scalar(rng) for k in ks) + " }"
     ks = sorted(set(rng.choice(KEYS if rng.random() < 0.3 else IDENTS[:8]) for _ in range(n)), key=lambda s: s.encode("utf-8"))
     if not ks:
         return "{ }"
